@@ -67,6 +67,7 @@ fn gen_base(t: &mut Tape) -> Scenario {
                 pb: b.props.pb,
                 dict: dict as u32,
                 size: if b.marker { None } else { Some(b.expect.len() as u64) },
+                pre: None,
             };
             sc.note = format!("raw dict={} marker={} out={}", dict, b.marker, b.expect.len());
             sc.set_b("input", b.payload);
